@@ -219,3 +219,125 @@ Proof.
   { apply flags_iff_stmt. rewrite Forall_forall in HF. apply HF. apply nth_In. exact Hi. }
   split; [exact Hw|]. rewrite andb_true_iff, negb_true_iff, Hw. tauto.
 Qed.
+
+(* ================= several buckets ================= *)
+From Coq Require Import Permutation.
+Local Open Scope nat_scope.
+
+Definition zero_counters : counters := {| c_total := 0; c_failed := 0; c_deleted := 0 |}.
+Definition n_failed (r : list (bool * bool * post)) : nat :=
+  count_true (map (fun x : bool * bool * post => negb (fst (fst x))) r).
+Definition n_deleted (r : list (bool * bool * post)) : nat :=
+  count_true (map (fun x : bool * bool * post => snd (fst x)) r).
+Definition sum_by {A} (f : A -> nat) (l : list A) : nat := list_sum (map f l).
+
+Lemma sum_by_cons {A} (f : A -> nat) x l : sum_by f (x :: l) = f x + sum_by f l.
+Proof. reflexivity. Qed.
+
+Lemma fold_bucket_step del : forall bs c acc,
+  fold_left (bucket_step del) bs (c, acc) =
+  ({| c_total := c_total c + sum_by (@length _) (map (validate_bucket del) bs);
+      c_failed := c_failed c + sum_by n_failed (map (validate_bucket del) bs);
+      c_deleted := c_deleted c + sum_by n_deleted (map (validate_bucket del) bs) |},
+   acc ++ map (validate_bucket del) bs).
+Proof.
+  induction bs as [|b bs IH]; intros c acc.
+  - cbn. rewrite !Nat.add_0_r, app_nil_r. destruct c; reflexivity.
+  - cbn [fold_left]. unfold bucket_step at 2. cbn [fst snd]. rewrite IH.
+    cbn [map]. rewrite !sum_by_cons. unfold add_counters. cbn [c_total c_failed c_deleted].
+    rewrite <- app_assoc. cbn [app]. f_equal. fold (n_failed (validate_bucket del b)). fold (n_deleted (validate_bucket del b)).
+    f_equal; lia.
+Qed.
+
+(* the fold over the buckets is a map: the verdicts and deletions of a bucket depend on that bucket
+   only; the only state carried from bucket to bucket are the three report counters, which are sums *)
+Lemma buckets_independent_stmt : forall del bs,
+  validate_buckets current_layout del bs =
+  Some ({| c_total := sum_by (@length _) (map (validate_bucket del) bs);
+           c_failed := sum_by n_failed (map (validate_bucket del) bs);
+           c_deleted := sum_by n_deleted (map (validate_bucket del) bs) |},
+        map (validate_bucket del) bs).
+Proof. intros del bs. unfold validate_buckets. cbn [find_part_store current_layout orb]. rewrite fold_bucket_step. reflexivity. Qed.
+
+Lemma sum_by_perm {A} (f : A -> nat) l l' : Permutation l l' -> sum_by f l = sum_by f l'.
+Proof. unfold sum_by, list_sum. induction 1; cbn [map fold_right] in *; lia. Qed.
+
+(* every order of the buckets gives the same per-bucket results and the same counters *)
+Lemma bucket_order_irrelevant_stmt : forall del bs bs', Permutation bs bs' ->
+  exists c rs rs', validate_buckets current_layout del bs = Some (c, rs) /\
+                   validate_buckets current_layout del bs' = Some (c, rs') /\
+                   Permutation rs rs' /\
+                   rs = map (validate_bucket del) bs /\ rs' = map (validate_bucket del) bs'.
+Proof.
+  intros del bs bs' P. rewrite !buckets_independent_stmt.
+  pose proof (Permutation_map (validate_bucket del) P) as PM.
+  rewrite <- (sum_by_perm _ _ _ PM), <- (sum_by_perm n_failed _ _ PM), <- (sum_by_perm n_deleted _ _ PM).
+  eexists _, _, _. repeat split; auto.
+Qed.
+
+Definition exact_class (o : obj) : Prop :=
+  recorded_by_put o \/ ((recorded_composite o \/ recorded_full o) /\ length (parts o) <> 1).
+
+Lemma verdict_exact del versioned o : exact_class o ->
+  let v := verdict del versioned o in
+  (fst (fst v) = false <-> corrupted o) /\
+  (snd (fst v) = true <-> corrupted o /\ del = true) /\
+  (snd v <> Kept <-> corrupted o /\ del = true) /\
+  (snd v = delete_effect versioned \/ snd v = Kept).
+Proof.
+  intros E. pose proof (flags_iff_stmt o E) as Hw. unfold verdict. cbn [fst snd].
+  destruct (validate_object o) eqn:V; destruct del; cbn.
+  all: repeat split; try tauto; try (intros; exfalso; (discriminate || (apply Hw in H; discriminate) || tauto)).
+  all: try (intros [C _]; apply Hw in C; discriminate).
+  all: try (intros _; split; [apply Hw; reflexivity | reflexivity]).
+  all: try (destruct versioned; cbn; discriminate).
+  all: try (left; reflexivity); try (right; reflexivity).
+  all: try (intros H; exfalso; apply H; reflexivity).
+  all: try (intros [_ H]; discriminate).
+Qed.
+
+(* deleted = flagged, bucket by bucket *)
+Lemma deleted_eq_flagged_stmt : forall del bs c rs,
+  Forall (fun b => Forall exact_class (bobjs b)) bs ->
+  validate_buckets current_layout del bs = Some (c, rs) ->
+  length rs = length bs /\
+  forall k b, nth_error bs k = Some b ->
+    exists r, nth_error rs k = Some r /\ length r = length (bobjs b) /\
+    forall i o, nth_error (bobjs b) i = Some o ->
+      exists v, nth_error r i = Some v /\
+        (fst (fst v) = false <-> corrupted o) /\
+        (snd (fst v) = true <-> corrupted o /\ del = true) /\
+        (snd v <> Kept <-> corrupted o /\ del = true) /\
+        (snd v = delete_effect (bvers b) \/ snd v = Kept).
+Proof.
+  intros del bs c rs HF H. rewrite buckets_independent_stmt in H. inversion H; subst. clear H.
+  split; [apply map_length|]. intros k b Hb.
+  exists (validate_bucket del b). split; [apply map_nth_error; exact Hb|].
+  split; [apply map_length|]. intros i o Ho.
+  exists (verdict del (bvers b) o). split; [apply map_nth_error; exact Ho|].
+  apply verdict_exact. rewrite Forall_forall in HF. apply nth_error_In in Hb. specialize (HF b Hb).
+  rewrite Forall_forall in HF. apply HF. eapply nth_error_In; eauto.
+Qed.
+
+(* a report-only run deletes nothing, in any bucket *)
+Lemma report_only_deletes_nothing_stmt : forall bs c rs,
+  validate_buckets current_layout false bs = Some (c, rs) ->
+  c_deleted c = 0 /\ Forall (Forall (fun v : bool * bool * post => snd (fst v) = false /\ snd v = Kept)) rs.
+Proof.
+  intros bs c rs H. rewrite buckets_independent_stmt in H. inversion H; subst. clear H. cbn [c_deleted].
+  assert (F : Forall (Forall (fun v : bool * bool * post => snd (fst v) = false /\ snd v = Kept)) (map (validate_bucket false) bs)).
+  { apply Forall_forall. intros r Hr. apply in_map_iff in Hr. destruct Hr as [b [<- _]].
+    apply Forall_forall. intros v Hv. apply in_map_iff in Hv. destruct Hv as [o [<- _]].
+    unfold verdict. cbn. rewrite andb_false_r. auto. }
+  split; [|exact F].
+  induction (map (validate_bucket false) bs) as [|r l IH]; [reflexivity|].
+  inversion F as [|? ? Fr Fl]; subst. rewrite sum_by_cons, (IH Fl), Nat.add_0_r.
+  unfold n_deleted, count_true. clear -Fr. induction r as [|v r IHr]; [reflexivity|].
+  inversion Fr as [|? ? [Hv _] Fr']; subst. cbn [map filter]. rewrite Hv. apply IHr. exact Fr'.
+Qed.
+
+(* the DeletedObjects counter is the number of deleted verdicts, FailedObjects the number of reported ones *)
+Lemma counters_stmt : forall del bs c rs,
+  validate_buckets current_layout del bs = Some (c, rs) ->
+  c_total c = sum_by (@length _) rs /\ c_failed c = sum_by n_failed rs /\ c_deleted c = sum_by n_deleted rs.
+Proof. intros del bs c rs H. rewrite buckets_independent_stmt in H. inversion H; subst. auto. Qed.
